@@ -51,6 +51,9 @@ def _walk_no_nested_defs(nodes):
             stack.append(c)
 
 
+REMOVED: Dict[str, List[ast.AST]] = {}  # helpers that were inlined everywhere and taken out of the tree (kept for rules that interpret them)
+
+
 class _Helper:
     def __init__(self, node, kind: str, cls: Optional[str]):
         self.node = node
@@ -524,6 +527,7 @@ class ModuleInliner:
                 refs = sum(1 for n in ast.walk(fn) if isinstance(n, ast.Name) and n.id == k[1] and isinstance(n.ctx, ast.Load))
                 if refs == 0:
                     self._drop_nested(fn, h.node)
+                    REMOVED.setdefault(self.modname, []).append(h.node)
                     self.log.append(f"{self.modname}: removed inlined closure {qual}.<locals>.{k[1]}")
 
     @staticmethod
@@ -570,6 +574,7 @@ class ModuleInliner:
                         if isinstance(st, ast.ClassDef) and st.name == cls:
                             st.body = [s for s in st.body if s is not h.node] or [ast.Pass()]
                 self.log.append(f"{self.modname}: removed inlined helper {cls + '.' if cls else ''}{name}")
+                REMOVED.setdefault(self.modname, []).append(h.node)
         ast.fix_missing_locations(self.tree)
         return self.tree
 
@@ -592,7 +597,8 @@ def _is_literal(e: ast.AST) -> bool:
     if isinstance(e, ast.UnaryOp) and isinstance(e.op, (ast.USub, ast.UAdd)):
         return _is_literal(e.operand)
     if isinstance(e, (ast.Tuple, ast.List, ast.Set)):
-        return all(_is_literal(x) for x in e.elts)
+        # elements may also be plain references to module-level names (classes, functions): `_TYPES = (BaselineData, ReportingData)`
+        return all(_is_literal(x) or _is_simple_arg(x) for x in e.elts)
     if isinstance(e, ast.Dict):
         return all(k is not None and _is_literal(k) and _is_literal(v) for k, v in zip(e.keys, e.values))
     if isinstance(e, ast.Call) and not e.keywords and ast.unparse(e.func) in _PURE_CALLS:
@@ -768,6 +774,7 @@ def inline_package(trees: Dict[str, ast.Module], packages: Dict[str, bool], know
     """Run the transparency pre-pass over all modules of the package at once (helpers and constants imported from a sibling
     module are followed through `from X import name [as alias]`).  `packages[mod]` says whether mod is a package (__init__)."""
     log: List[str] = []
+    REMOVED.clear()
     if signatures:
         log.extend(undo_renames(trees, known_functions, signatures))
     inl: Dict[str, ModuleInliner] = {}
